@@ -73,8 +73,16 @@ def big_boards(tier):
     return gen
 
 
+def slow_cases():
+    for g in games.slow_choice_games():
+        for prune in (True, False):
+            yield dict(kind="game", game=g, prune=prune)
+
+
 def phases(tier):
     return [
+        Phase("slow-rewarded-loops", enum=slow_cases,
+              note="reach-tied branches whose rewards only separate after 10^3..10^5 sweeps"),
         Phase("games-exact-sets", strategy=lambda: game_cases(9 if tier == "quick" else 12), examples=(1600, 60000)),
         Phase("boards-inclusion", strategy=lambda: board_cases(3, 3) if tier == "quick" else board_cases(4, 4),
               examples=(60, 1200)),
@@ -136,7 +144,7 @@ def check_case(case):
         v.cls("twin_states")
     facts = GameFacts(game)
     try:
-        if facts.T > T_MAX:
+        if facts.too_slow:
             v.inconclusive = "T>300"
             return v
     except OracleError as e:
